@@ -32,7 +32,9 @@ KindFixed == {"fixed"}
 KindGrow  == {"grow"}
 CapsDef   == {0, 3, 6, 12}
 CapsSmall == {2, 6}
+CapsMid   == {3, 8}
 Strings1  == Strings(1)
+TwoStrings == {<<>>, <<233, 97>>}
 BothApis == {"p", "t"}
 OnlyP    == {"p"}
 NoIncl   == {FALSE}
